@@ -161,7 +161,7 @@ pub fn main(a: &Args) {
         for _ in 0..a.num("docs", 1000) {
             let prose = inputs::compose(&corpus, &mut rng);
             let fr = rng.pick(&fronts[..]).clone();
-            let text = inputs::wrap_front(&fr, &prose, &mut rng);
+            let text = if rng.chance(1, 3) { crate::c04::render(&fr, rng.next()) } else { inputs::wrap_front(&fr, &prose, &mut rng) };
             let wrapper = if rng.chance(1, 4) { rng.range(1, 3) as u8 } else { 0 };
             inputs_v.push((text, fr, wrapper));
             inputs_v.push((prose, "plain".into(), 0));
